@@ -245,6 +245,10 @@ class Histogram1D(ObjectWithBinning, HistogramBase):
                         "Cannot index with masked array of a wrong dimension"
                     )
             elif index.dtype.kind in "iu":
+                if np.any((index < -self.bin_count) | (index >= self.bin_count)):
+                    raise IndexError(
+                        f"Index out of range for a histogram with {self.bin_count} bins."
+                    )
                 # The selected bins are taken in increasing order (bins must stay rising)
                 index = np.unique(np.where(index < 0, index + self.bin_count, index))
         elif isinstance(index, slice):
